@@ -471,6 +471,10 @@ type Machine struct {
 	// Relaxed: the root is a crash image: left-over temp/orphan directories and the failures they cause
 	// (rename onto an orphan directory) are expected until the first Cleanup.
 	Relaxed bool
+	// CrashImage: the snapshotter was started on a crash image. The harness knows the ids of the snapshots it saw
+	// being created before the crash, but not of those the interrupted call was about; for those the clauses that
+	// need an id cannot be evaluated until the id shows up in a returned mount (never the case on a fresh root).
+	CrashImage bool
 	// NoRestore: started with snapshot.NoRestore on an existing root: remote snapshots are neither re-mounted
 	// nor are their directories (removed by Close) recreated.
 	NoRestore bool
@@ -868,6 +872,18 @@ func (m *Machine) oracle(o Op, res Res, evs []Event, before map[int]WalkEnt, dir
 			delete(m.idOf, o.Key)
 		}
 	}
+	if m.CrashImage && res.Class == "mounts" && (o.Op == "mounts" || o.Op == "prepare") {
+		// a writable mount names the snapshot's own directory: learn the id of a snapshot the crashed call created
+		if _, ok := m.idOf[o.Key]; !ok {
+			if e, live := after[o.Key]; live && e.Kind == 1 {
+				if !res.Bind && res.Upper >= 0 {
+					m.idOf[o.Key] = res.Upper
+				} else if res.Bind && !res.RO {
+					m.idOf[o.Key] = res.ID
+				}
+			}
+		}
+	}
 	if o.Op != "prepare" && o.Op != "view" && len(newDirs) > 0 {
 		m.problem("", "%s made new directories %v", o.Op, newDirs)
 	}
@@ -970,7 +986,7 @@ func (m *Machine) oracle(o Op, res Res, evs []Event, before map[int]WalkEnt, dir
 					chain = append(chain, id)
 				} else {
 					chainKnown = false
-					if m.Relaxed {
+					if m.CrashImage {
 						n = e.Parent
 						continue // id of a snapshot of the crash image the harness could not learn: cannot evaluate
 					}
@@ -997,7 +1013,7 @@ func (m *Machine) oracle(o Op, res Res, evs []Event, before map[int]WalkEnt, dir
 					got = nil
 				}
 			}
-			if !chainKnown && m.Relaxed {
+			if !chainKnown && m.CrashImage {
 				got, wantLower = nil, nil
 			}
 			if fmt.Sprint(got) != fmt.Sprint(wantLower) && !(len(got) == 0 && len(wantLower) == 0) {
